@@ -89,7 +89,16 @@ def parseOp (toks : List String) : Option Op :=
     | "vote" =>
       let t ← parseVType (← kv rest "t")
       let b ← parseBid (← kv rest "b")
-      pure (.byz ⟨sender, .vote t r b, ok⟩)
+      -- optional: the address the vote carries and the key that signed it (default: the sender's).
+      -- `VoteSet.addVote` takes the vote only if the address is the one of slot `sender` and the
+      -- signature verifies for that slot's key (sign bytes contain neither index nor address)
+      let addr ← match kv rest "addr" with
+        | none => some sender
+        | some s => s.toNat?
+      let key ← match kv rest "key" with
+        | none => some sender
+        | some s => s.toNat?
+      pure (.byz ⟨sender, .vote t r b, ok && addr == sender && key == sender⟩)
     | _ => none
   | _ => none
 
